@@ -9,7 +9,7 @@
    capacity runs out, so the model is structural recursion on the source.
    The escape character set and the accepted escape pairs come from
    gen/Generated.v, which the translator rewrites from jid/escape.go. *)
-From XV Require Import lib.Bytes gen.Generated.
+From XV Require Import lib.Bytes gen.JidEscape.
 
 Inductive terr := ENil | EShortDst | EShortSrc | EEndOfSpan.
 
